@@ -720,7 +720,7 @@ AFeatIntLogCondY(i, j, s, via) ==
                        [val |-> MkSeq(R, LAMBDA r : FeatIntLogCondY(c, p, r, QV(qY[r])))]))
 
 \* heteroscedastic models
-HetA(dy, da, s) == Q([a \in 1..dy |-> [b \in 1..da |-> IF a = b THEN 2 ELSE IF b > dy THEN ((a + b + s) % 3) - 1 ELSE IF b = a + 1 THEN 1 ELSE 0]], 2)
+HetA(dy, da, s) == Q([a \in 1..dy |-> [b \in 1..da |-> IF a = b THEN 2 ELSE IF b > dy THEN ((a + b + s) % 3) - 1 ELSE IF b > a THEN 1 ELSE -1]], 2)
 \* generic small weights (exp / cosh-1): Dk x (Dx + 1), offset in column 1
 HetWGen(dk, dx, s) == Q([i \in 1..dk |-> [d \in 1..(dx + 1) |-> ((i + 2 * d + s) % 3) - 1 + (IF d = i + 1 THEN 1 ELSE 0)]], 3)
 \* weights for the step / relu links, paired with a density built by ANewPdfChol(dx, 1, s): w_i = c (L')^-1 e_k,
@@ -740,7 +740,7 @@ HetWSq(dx, dk, s) ==
 
 ANewHet(cls, dy, da, dk, dx, s) ==
     LET sq == cls \in {"HetStep", "HetRelu"}
-        qM == MMenu(dy, dx)[(s % 3) + 1]
+        qM == MMenu(dy, dx)[((s + 1) % 3) + 1]
         qb == VEC2(dy)[(s % 4) + 1]
         qA == HetA(dy, da, s)
         ws == HetWSq(dx, dk, s)
